@@ -109,8 +109,8 @@ def mutation_family(v: Verdict, tier: str, seed: int):
             cleanup(res)
         seeds_ += rng.sample(texts, min(len(texts), {"quick": 4, "thorough": 12}[tier]))
     muts = sorted({m for t in seeds_ for m in mutations(t, rng, tier == "thorough")})
-    if tier == "quick" and len(muts) > 8000:
-        muts = rng.sample(muts, 8000)
+    if tier == "quick" and len(muts) > 5000:
+        muts = rng.sample(muts, 5000)
     work = scratch_dir("c04-strings")
     path = os.path.join(work, "inputs.json")
     with open(path, "w") as fh:
